@@ -247,7 +247,8 @@ CHECKS["C20"] = {
         "expected_probes": ["both_args_value_error", "multibyte_split_across_raw_reads", "eintr_inside_write", "short_write_retried", "enospc_write_propagated",
                             "eio_write_propagated", "eio_read_propagated", "decode_error_propagated", "locale_unencodable_propagated", "utf16_bom",
                             "preexisting_longer_file", "fileobj_recording_exact", "cr_or_crlf_file", "generator_result_rejected",
-                            "caller_edited_its_copy_of_default_stacks", "failed_write_left_target_untouched"]
+                            "caller_edited_its_copy_of_default_stacks", "failed_write_left_target_untouched",
+                            "open_error_propagated_read", "open_error_propagated_write"]
                            + ["returns_" + k for k in ("none", "empty_list", "empty_tuple", "same", "new", "list2", "tuple3", "gen", "int", "obj", "str", "list_bad")],
         "components": {"real": REAL_COMMON + ["parse_string / parse_file / write_string / write_file", "default stacks", "BlockMiddleware.transform", "shipped middlewares mixed into stacks"],
                        "stub": ["raw device + directory: SimRaw / SimDisk", "builtins.open as seen by bibtexparser.entrypoint", "locale / platform newline (simulated)",
